@@ -278,6 +278,9 @@ pub fn check_step<const N: usize, const P: usize, const D: usize, const L: usize
             || state_after == ST_DONE;
         ensure!(progressed, "C03: every call makes progress (calls to Eof are linear in the input)");
         ensure!(state_after != ST_INIT, "C03: the reader never returns to its initial state");
+        // the successor state satisfies the invariant the next call relies on (else `close_expanded_empty` would panic)
+        ensure!(state_after != ST_EMPTY || starts_after.len() >= 1, "C03: the state reached cannot panic on the next call (an expanded empty element has its name on the stack)");
+        ensure!(state_after != ST_MARKUP || offset_after >= 1, "C03: the state reached cannot underflow on the next call");
     }
 
     // ---- C01 / C16: same outcome as the reference ----------------------------------------------
@@ -559,6 +562,13 @@ pub fn compare_outcome(
             if mask & C16_FINDING_ONLY != 0 {
                 ensure!(false, "C16: whitespace-only text trimmed to nothing is not emitted");
             }
+            if mask & C04 != 0 {
+                let about_end = matches!(want.out, Out::IllFormed { err: Ill::Mismatched, .. } | Out::IllFormed { err: Ill::Unmatched, .. } | Out::Event { kind: Kind::End, .. })
+                    || matches!(res, Ok(Event::End(_)) | Err(Error::IllFormed(IllFormedError::MismatchedEndTag { .. })) | Err(Error::IllFormed(IllFormedError::UnmatchedEndTag(_))));
+                if about_end {
+                    ensure!(false, "C04: an end tag is accepted or rejected exactly as configured (byte-for-byte name comparison, unmatched ends)");
+                }
+            }
             ensure!(false, "C01: outcome class (event / syntax error / ill-formed error) is the one the grammar assigns");
         }
     }
@@ -671,6 +681,7 @@ pub fn check_emit<const N: usize, const P: usize>(raw: &[u8], sel: u8, mask: u32
     let (state_after, _, err_after, buf_after, starts_after) = reader.verif_state();
     if mask & C03 != 0 {
         ensure!(err_after <= offset, "C03: error position is not after the current position");
+        ensure!(state_after != ST_EMPTY || starts_after.len() >= 1, "C03: the state reached cannot panic on the next call (an expanded empty element has its name on the stack)");
     }
     match want.stack {
         StackOp::None => ensure!(starts_after.len() == depth, "C04: stack depth unchanged"),
